@@ -12,7 +12,7 @@ META = {
              'total = reported total); crash points = an exception injected after the k-th physical write, for every k; '
              'signature = (rows class, input-chunk relation, #flushes class, output-chunk relation, prior content, crash k '
              'class); non-trivial when there are >= 2 flushes, a remainder chunk or an injected crash'),
-    'required_obs': {'quick': ['flushes>=3', 'flush-at-exact-fit', 'remainder-chunk', 'crash-first', 'crash-middle', 'crash-last',
+    'required_obs': {'quick': ['ics-astronomical', 'flushes>=3', 'flush-at-exact-fit', 'remainder-chunk', 'crash-first', 'crash-middle', 'crash-last',
                                'prior-longer', 'prior-shorter', 'ocs-float', 'ocs-eq-record', 'ics-gt-rows', 'ics-1',
                                'invalid-config-tried', 'reported-size-compared', 'window', 'contract-evals-write_bytes',
                                'contract-evals-buffer-invariant', 'one-data-object-many-configurations', 'cast-of-special-values']},
@@ -168,6 +168,8 @@ def run_case(case):
             cfgs = [(None, 'default', None)]
         else:
             ics_all = sorted(set(x for x in gen.chunk_choices(rows) + gen.chunk_choices(full_rows) if x is not None)) + [None, True]
+            # accepted values far beyond any row count (integers have no upper limit): one chunk, like None
+            ics_all += [r.choice([2 ** 31, 2 ** 63, 2 ** 64 + 1]), r.choice([10 ** 100, 10 ** 330, 10 ** 400])]
             ocs_all = [mx, mx + 1, mx + 2, 2 * mx - 1, 2 * mx, float(2 * mx), size, size - 1, size + 1, 3 * mx + 7, 2 ** 20, 4096.0]
             ocs_all = [o for o in ocs_all if o >= mx]
             cfgs = []
@@ -200,6 +202,8 @@ def run_case(case):
                 bump('ocs-eq-record')
             if ics is not None and ics is not True and ics > rows:
                 bump('ics-gt-rows')
+            if ics is not None and ics is not True and ics >= 10 ** 100:
+                bump('ics-astronomical')
             if ics == 1 or ics is True:
                 bump('ics-1')
             rem = ics is not None and ics is not True and ics < rows and rows % ics
